@@ -21,6 +21,7 @@
 EXTENDS AioCache, P_Cache, Json
 
 CONSTANTS MaxCalls, MaxEnv, MaxTicks, EnvKinds,
+          Warm,        \* number of keys computed one after the other before the free part starts
           EnvAt        \* "any": between any two handles and when idle; "idle": only when idle (in batches)
 
 VARIABLES C, E, hist, pst, pbad
@@ -33,7 +34,7 @@ Init ==
   /\ K = KInit([t \in Task |-> Client0], [t \in Task |-> NOSCOPE])
   /\ C = CacheInit
   /\ E = [n |-> 0, calls |-> 0, live |-> {}, scoped |-> {}, natived |-> {}, qat |-> 0, ticks |-> 0,
-          kmax |-> 0]
+          kmax |-> 0, pp |-> 0]
   /\ hist = <<>>
   /\ pst = CacheP0(MaxSize, Ttl)
   /\ pbad = {}
@@ -101,31 +102,38 @@ RunHandle == /\ PopEnabled(K)
 EnvPoint == IF EnvAt = "any"
             THEN K.run = NONE /\ (K.left > 0 \/ (Quiescent(K) /\ E.qat = K.nh + 1))
             ELSE K.run = NONE /\ K.left = 0 /\ E.qat = K.nh + 1
+\* forced warm-up: call(1), ok, call(2), ok, ... (Warm keys); the bounds count what comes after it
+RECURSIVE WarmSeq(_)
+WarmSeq(n) == IF n = 0 THEN <<>> ELSE WarmSeq(n - 1) \o <<[c |-> "call", k |-> n], [c |-> "ok", k |-> 0]>>
+InWarm == E.pp < 2 * Warm
+WarmOK(act, k) == IF InWarm THEN WarmSeq(Warm)[E.pp + 1] = [c |-> act, k |-> k] ELSE TRUE
+Count(e) == IF InWarm THEN [e EXCEPT !.pp = @ + 1] ELSE [e EXCEPT !.n = @ + 1]
 FreeSlots == Task \ E.live
 MinSlot == CHOOSE t \in FreeSlots : \A u \in FreeSlots : t <= u
 
 \* loop.create_task(caller(t, k)); slots and keys are interchangeable: lowest free slot, and a key
 \* not used before must be the next one
 EnvCall(k) ==
-  /\ EnvPoint /\ E.n < MaxEnv /\ E.calls < MaxCalls /\ FreeSlots # {} /\ k <= E.kmax + 1
+  /\ EnvPoint /\ E.n < MaxEnv /\ (IF InWarm THEN TRUE ELSE E.calls < MaxCalls) /\ FreeSlots # {} /\ k <= E.kmax + 1
+  /\ WarmOK("call", k)
   /\ LET t == MinSlot
          fresh == [TaskInit(<<Frame("client", "init", k, 0)>>, NOSCOPE) EXCEPT !.st = "unborn"] IN
      /\ K' = CallSoon([K EXCEPT !.T[t] = fresh], HStep(t))
-     /\ E' = [E EXCEPT !.n = @ + 1, !.calls = @ + 1, !.live = @ \cup {t}, !.scoped = @ \ {t},
+     /\ E' = [Count(E) EXCEPT !.calls = IF InWarm THEN @ ELSE @ + 1, !.live = @ \cup {t}, !.scoped = @ \ {t},
                        !.natived = @ \ {t}, !.kmax = IF k > @ THEN k ELSE @]
      /\ hist' = Append(hist, HE("call", t, k))
   /\ UNCHANGED <<C, pst, pbad>>
 
 EnvGate(t, how) ==
   /\ EnvPoint /\ E.n < MaxEnv /\ t \in E.live /\ C.xof[t] # 0 /\ C.gout[C.xof[t]] = "none"
-  /\ how \in EnvKinds
+  /\ how \in EnvKinds /\ WarmOK(how, 0)
   /\ LET r == GateOpen(K, C, t, how) IN K' = r.q /\ C' = r.c
-  /\ E' = [E EXCEPT !.n = @ + 1]
+  /\ E' = Count(E)
   /\ hist' = Append(hist, HE(how, t, C.xof[t]))
   /\ UNCHANGED <<pst, pbad>>
 
 EnvCancel(t) ==
-  /\ EnvPoint /\ "cancel" \in EnvKinds /\ E.n < MaxEnv /\ t \in E.live /\ t \notin E.scoped
+  /\ EnvPoint /\ ~InWarm /\ "cancel" \in EnvKinds /\ E.n < MaxEnv /\ t \in E.live /\ t \notin E.scoped
   /\ K.T[t].st = "pending" /\ Depth(K, t) >= 1
   /\ K' = ScopeCancel(K, <<t, 1>>)
   /\ E' = [E EXCEPT !.n = @ + 1, !.scoped = @ \cup {t}]
@@ -134,7 +142,7 @@ EnvCancel(t) ==
   /\ UNCHANGED C
 
 EnvNative(t) ==
-  /\ EnvPoint /\ "native" \in EnvKinds /\ E.n < MaxEnv /\ t \in E.live /\ t \notin E.natived
+  /\ EnvPoint /\ ~InWarm /\ "native" \in EnvKinds /\ E.n < MaxEnv /\ t \in E.live /\ t \notin E.natived
   /\ K.T[t].st = "pending"
   /\ K' = TaskCancel(K, t, FALSE)
   /\ E' = [E EXCEPT !.n = @ + 1, !.natived = @ \cup {t}]
@@ -143,7 +151,7 @@ EnvNative(t) ==
   /\ UNCHANGED C
 
 EnvTick ==
-  /\ EnvPoint /\ Ttl # NOTTL /\ E.n < MaxEnv /\ E.ticks < MaxTicks /\ E.calls > 0
+  /\ EnvPoint /\ ~InWarm /\ Ttl # NOTTL /\ E.n < MaxEnv /\ E.ticks < MaxTicks /\ E.pp + E.calls > 0
   /\ K' = [K EXCEPT !.now = @ + 1]
   /\ E' = [E EXCEPT !.n = @ + 1, !.ticks = @ + 1]
   /\ Feed([ev |-> "tick", now |-> K.now + 1])
